@@ -31,6 +31,13 @@ MUTANTS = [
     ('C01', 'supp/scope.py', r"enumerate\(getattr\(node\.args, 'posonlyargs', \[\]\) \+ node\.args\.args\)", "enumerate(node.args.args)", 'C01-R2'),
     ('C01', 'supp/nast.py', r"    def visit_Global\(self, node\):\n        # type: \(ast\.Global\) -> None\n        self\.flow\.scope\.globals\.update\(node\.names\)", "    def visit_Global(self, node):\n        # type: (ast.Global) -> None\n        pass", 'C01-R2'),
     ('C01', 'supp/scope.py', r"elif name\.name in self\.scope\.nonlocals:", "elif False:", 'C01-R2'),
+    ('C01', 'supp/scope.py', r"if getattr\(body\[0\], 'decorator_list', None\):", "if type(body[0]) in (FunctionDef, ClassDef) and body[0].decorator_list:", 'C01-R4'),
+    ('C01', 'supp/nast.py', r"AssignedName\(name\.id, get_first_body_node_loc\(node\.body\), np\(name\), node\.iter\)", "AssignedName(name.id, np(node.body[0]), np(name), node.iter)", 'C01-R4'),
+    ('C03', 'supp/nast.py', r"        for b in node\.bases:\n            self\.visit\(b\)\n", "        self.visit_in_flow(node.bases, self.flow)\n", 'C03-R1'),
+    ('C11', 'supp/scope.py', r"IMPORT_END_DELIMETERS = string\.whitespace \+ '\),\.;#", "IMPORT_END_DELIMETERS = string.whitespace + '),.;", 'C11-R3'),
+    ('C11', 'supp/scope.py', r"self\.declared_at = top\.find_id_loc\(fnode\.name, np\(fnode\)\)", "self.declared_at = top.find_id_loc(' ' + fnode.name, np(fnode), 1, False)", 'C11-R3'),
+    ('C12', 'supp/project.py', r"return set\(m for m in modules if IDENTIFIER\.match\(m\)\)", "return modules", 'C12-R2'),
+    ('C08', 'supp/name.py', r"                try:\n                    attrs\[k\] = RuntimeName\(k, getattr\(self\.value, k, None\)\)\n                except Exception:\n                    # a property of a live object may raise anything\n                    attrs\[k\] = RuntimeName\(k, None\)\n", "                attrs[k] = RuntimeName(k, getattr(self.value, k, None))\n", 'C08-R1'),
     # ---- C02
     ('C02', 'supp/scope.py', r"if len\(self\.parents\) == 1:", "if len(self.parents) >= 1:", 'C02-R4'),
     ('C02', 'supp/nast.py', r"self\.flow = self\.make_flow\('join', \[body, orelse\]\)", "self.flow = self.make_flow('join', [orelse])", 'C02-R1'),
@@ -98,7 +105,7 @@ MUTANTS = [
     ('C10', 'supp/linter.py', r"                if name\.name in qualified_imports:\n                    continue\n", "", 'C10-R1'),
     ('C10', 'supp/scope.py', r"flow\.add_name\(ImportedName\(name, loc, declared_at, mname, name, True\)\)", "flow.add_name(ImportedName(name, loc, declared_at, mname, name))", 'C10-R2'),
     # ---- C11
-    ('C11', 'supp/nast.py', r"fh\.add_name\(AssignedName\(h\.name, np\(h\.body\[0\]\), np\(h\), h\.type\)\)", "fh.add_name(AssignedName(h.name, np(h.body[0]), np(h.body[0]), h.type))", 'C11-R1'),
+    ('C11', 'supp/nast.py', r"fh\.add_name\(AssignedName\(h\.name, get_first_body_node_loc\(h\.body\), np\(h\), h\.type\)\)", "fh.add_name(AssignedName(h.name, get_first_body_node_loc(h.body), np(h.body[0]), h.type))", 'C11-R1'),
     ('C11', 'supp/linter.py', r"name\.declared_at\[0\], name\.declared_at\[1\], flow", "name.location[0], name.location[1], flow", 'C11-R2'),
     ('C11', 'supp/scope.py', r"self\.args\.append\(ArgumentName\(\[ni\], n\.arg, self\.location, np\(n\), self\)\)", "self.args.append(ArgumentName([ni], n.arg, self.location, np(node), self))", 'C11-R1'),
     ('C11', 'supp/nast.py', r"self\.flow\.add_name\(AssignedName\(name\.id, eend, np\(name\), node\.value\)\)\n\n\nextract", "self.flow.add_name(AssignedName(name.id, eend, eend, node.value))\n\n\nextract", 'C11-R1'),
@@ -113,7 +120,7 @@ MUTANTS = [
     ('C12', 'supp/assistant.py', r"re\.search\(r'\\w\*\$', line\)\.group\(\)", r"re.split(r'(\\.|\\s|\\()', line)[-1]", 'C12-R1'),
     ('C12', 'supp/assistant.py', r"line = source\.lines\[ln - 1\]\[:col\]", "line = source.lines[ln - 1][:col + 1]", 'C12-R1'),
     # ---- C13
-    ('C13', 'supp/nast.py', r"body_start\.add_name\(AssignedName\(name\.id, np\(node\.body\[0\]\), np\(name\), node\.iter\)\)", "body_start.add_name(AssignedName(name.id, (node.lineno + 1, 0), np(name), node.iter))", 'C13-R1'),
+    ('C13', 'supp/nast.py', r"body_start\.add_name\(AssignedName\(name\.id, get_first_body_node_loc\(node\.body\), np\(name\), node\.iter\)\)", "body_start.add_name(AssignedName(name.id, (node.lineno + 1, 0), np(name), node.iter))", 'C13-R1'),
     ('C13', 'supp/scope.py', r"self\.location = np\(node\.body\[0\]\)", "self.location = (np(node)[0] + 1, np(node)[1] + 4)", 'C13-R1'),
     ('C13', 'supp/util.py', r"self\.last_loc = node\.lineno, node\.col_offset \+ 1\n        self\.visit\(node\)", "self.last_loc = node.lineno + 1, 0\n        self.visit(node)", 'C13-R1'),
     ('C13', 'supp/util.py', r"return self\.location < other\.location", "return self.location[0] < other.location[0]", 'C13-R2'),
